@@ -220,7 +220,7 @@ func main() {
 
 	nscen, nops, sample := 14, 9, 40
 	if c.Thorough() {
-		nscen, nops, sample = 300, 16, 120
+		nscen, nops, sample = 150, 16, 120
 	}
 	r := hx.NewRNG(c.Seed)
 	if os.Getenv("C08_SCENARIOS") != "" {
@@ -243,7 +243,7 @@ func main() {
 				}
 				c.Hist["expected:"+ak]++
 				nontrivial := ak != "num" && ak != "hn" && (strings.HasPrefix(ak, "err") || t.kind != "number-existing" || strings.Contains(o.Spec, "L1"))
-				c.Count(strings.Join(e.lines, ";")+"|"+be+"|"+t.line(), nontrivial)
+				c.Count(e.stateKey()+"|"+be+"|"+t.line(), nontrivial)
 				if c.Evaluations%997 == 1 {
 					c.Sample(map[string]any{"chain_ops": len(e.lines), "backend": be, "request": t.line(), "expected": o.Spec, "impl": o.Impl})
 				}
